@@ -249,3 +249,26 @@ Fixpoint batch_run {A} (idof : A -> option idv) (b : batch A) (ops : list (batch
   | o :: q => let '(b', r) := batch_step idof b o in
               let '(b'', rs) := batch_run idof b' q in (b'', r :: rs)
   end.
+
+(* ---- normal forms reached by one trip over the wire (used by C05) ---- *)
+(* None, (), [] and {} all mean "no parameters": the wire form has no params member and the
+   deserialiser yields the empty list. *)
+Definition norm_params (p : params) : params := if params_truthy p then p else PList [].
+Definition norm_req (r : request) : request :=
+  {| r_method := r_method r; r_params := norm_params (r_params r); r_id := r_id r |}.
+(* the class is not on the wire: it is recomputed from the code (registered class, else the base) *)
+Definition reclass_err (rg : registry) (base : string) (e : rpc_error) : rpc_error :=
+  mk_error rg base (e_code e) (e_msg e) (e_data e).
+Definition reclass (rg : registry) (base : string) (r : response) : response :=
+  match r with RResult i v => RResult i v | RError i e => RError i (reclass_err rg base e) end.
+
+(* constructing an error the way user code does: cls(code=None, message=None, data=UNSET);
+   [defaults] is the class table (Consts.error_messages); the base class has no defaults *)
+Definition new_error (defaults : list (string * (Z * string))) (cls : string)
+           (code : option Z) (msg : option string) (data : option json) : res rpc_error :=
+  let d := get cls defaults in
+  match (match code with Some c => Some c | None => option_map fst d end),
+        (match msg with Some m => Some m | None => option_map snd d end) with
+  | Some c, Some m => Ok {| e_code := c; e_msg := m; e_data := data; e_class := cls |}
+  | _, _ => Raise XAssert
+  end.
